@@ -26,6 +26,10 @@ def run(ctx: Ctx) -> int:
     ctx.outside_claim = ["order edges in the HUGR (track_hugr_side_effects) and everything after the checked CFG", "qubit allocation / measurement order", "array construction, subscripts",
                          "programs inside the two known-finding regions (there only the finding itself is re-established)"]
     ctx.assumptions = ["a block's statements execute in list order, its predicate last; successors[1] = true"]
+    KEY_R = "C05:reflected-comparison-evaluates-right-operand-first"
+    have = len(e4_corpus.corpus("c05", 6, ctx.seed, "reflected-compare"))
+    jobs += e4_check.jobs_for(ctx, "c05", 6, batch=3, timeout=ctx.pick(200, 600), region="reflected-compare", key=KEY_R, total=have,
+                              harness="harness/E5_equiv.py", fn="h_equiv5")
     # stage 2 (E5): the same programs through the *checked* CFGs of the real front end (operator resolution, coercions, iterator protocol, 64-bit arithmetic)
     jobs += e4_check.jobs_for(ctx, "c05", n, batch=3, timeout=ctx.pick(300, 1500), total=n + nfixed, harness="harness/E5_equiv.py", fn="h_equiv5",
                               upto=ctx.pick(30, 400))
